@@ -23,7 +23,8 @@ func vPlainFileName(name string) bool {
 
 // VerifC19_Names: file names are plain, distinct and every link resolves, for hostile pointers and
 // names. cs: 0 source pointer symbolic, 1 individual pointer symbolic, 2 surname symbolic,
-// 3 place symbolic, 4 two people whose names collapse to the same key, 5 a place named like a page.
+// 3 place symbolic, 4 two people whose names collapse to the same key, 5 a place named like a page,
+// 6 and 7 people and places named like the per-letter index pages, 8 surnames starting with non-ASCII letters.
 func VerifC19_Names(cs int) {
 	sym2 := VsBytes("h", 2, 0x21, 0x7e)
 	text := vDeadFamily
@@ -43,6 +44,14 @@ func VerifC19_Names(cs int) {
 		text += "0 @I3@ INDI\n1 NAME Zed /Young/\n1 BIRT\n2 PLAC " + sym2 + "town, Nowhere\n1 DEAT\n"
 	case 4:
 		text += "0 @I3@ INDI\n1 NAME John /Smith/\n1 BIRT\n2 DATE 3 Sep 1843\n1 DEAT\n0 @I4@ INDI\n1 NAME john /SMITH./\n1 DEAT\n"
+	case 8:
+		// surnames that start with letters outside ASCII
+		text += "0 @I3@ INDI\n1 NAME \xc3\x85sa /\xc3\x96stberg/\n1 BIRT\n2 PLAC \xc3\x85re, Sverige\n1 DEAT\n0 @I4@ INDI\n1 NAME \xc3\x89mile /\xc3\x89tienne/\n1 DEAT\n0 @I5@ INDI\n1 NAME Jos\xc3\xa9 /\xc3\xb1and\xc3\xba/\n1 DEAT\n"
+	case 6:
+		// people and a place named like the index pages
+		text += "0 @I3@ INDI\n1 NAME Individuals /Smith/\n1 DEAT\n0 @I4@ INDI\n1 NAME Individuals /A/\n1 BIRT\n2 PLAC individuals symbol\n1 DEAT\n"
+	case 7:
+		text += "0 @I3@ INDI\n1 NAME Individuals /" + sym2[:1] + "/\n1 DEAT\n0 @I4@ INDI\n1 NAME individuals /symbol/\n1 DEAT\n"
 	default:
 		text += "0 @I3@ INDI\n1 NAME Zed /Young/\n1 BIRT\n2 PLAC places\n1 DEAT\n0 @I4@ INDI\n1 NAME Sur /Names/\n1 BIRT\n2 PLAC Sydney  Australia\n1 DEAT\n"
 	}
@@ -129,12 +138,15 @@ func VerifC19_Faults(cs int) {
 	total := len(full.w.names)
 	w := vNewMemWriter()
 	w.failAt = VsChoose("fail-at-file", total)
+	w.oneFile = cs/2%2 == 1
 	p := vPublish(doc, vAllOptions(LivingVisibilityShow), jobs, w)
 	VsObserve(w.failAt)
 	VsObserve(p.err != nil)
 	VsReach("fault-injected")
 	VsAssert("writer-failure-does-not-panic", !p.panicked)
 	VsAssert("writer-failure-is-reported", p.err != nil)
-	VsAssert("publishing-stops-after-the-failure", w.calls <= w.failAt+jobs)
+	if !w.oneFile {
+		VsAssert("publishing-stops-after-the-failure", w.calls <= w.failAt+jobs)
+	}
 	_ = fmt.Sprint
 }
